@@ -286,6 +286,14 @@ Record frame := mkFrame {
 
 Definition label_table (merge : bool) : table := table_of Autoware merge "".
 
+(* _get_box_velocity / NuScenes.box_velocity: the velocity itself is not modelled, but its table
+   look-ups are, because they raise KeyError on a dangling `prev` / `next` for EVERY task *)
+Definition neighbour_lookup (d : dataset) (k : string) : res unit :=
+  if String.eqb k "" then Ok tt
+  else b <- get_ann d k ;; _ <- get_sample d (a_sample b) ;; Ok tt.
+Definition velocity_lookups (d : dataset) (a : annotation) : res unit :=
+  _ <- neighbour_lookup d (a_prev a) ;; neighbour_lookup d (a_next a).
+
 Definition object_visibility (d : dataset) (a : annotation) : res (option result) :=
   match visibilities d with
   | [] => Ok None
@@ -299,8 +307,11 @@ Definition make_object (d : dataset) (tk : task) (fid : frame_id) (merge : bool)
   p <- box_pose d fid sd modality a ;;
   vis <- object_visibility d a ;;
   attrs <- mapM (fun t => at_ <- get_attribute d t ;; Ok (at_name at_)) (a_attrs a) ;;
+  _ <- velocity_lookups d a ;;
   hist <- (match tk with
-           | Tracking => h <- past_annotations d (s_token s) (a_instance a) ;; Ok (Some (map past_of h))
+           | Tracking => h <- past_annotations d (s_token s) (a_instance a) ;;
+                         _ <- mapM (velocity_lookups d) h ;;
+                         Ok (Some (map past_of h))
            | _ => Ok None
            end) ;;
   Ok (mkObj (a_token a) (a_instance a) (convert_label (label_table merge) (snd an)) (snd an) attrs
@@ -369,7 +380,8 @@ Definition references_resolve (d : dataset) : bool :=
   && forallb (fun a => has s_token (samples d) (a_sample a) && has i_token (instances d) (a_instance a)
                        && (match visibilities d with [] => true | _ => has v_token (visibilities d) (a_vis a) end)
                        && forallb (has at_token (attributes d)) (a_attrs a)
-                       && (String.eqb (a_prev a) "" || has a_token (anns d) (a_prev a))) (anns d)
+                       && (String.eqb (a_prev a) "" || has a_token (anns d) (a_prev a))
+                       && (String.eqb (a_next a) "" || has a_token (anns d) (a_next a))) (anns d)
   && forallb (fun i => has c_token (categories d) (i_category i)) (instances d).
 
 (* every sample has a key-frame lidar sample_data *)
